@@ -2,3 +2,4 @@ import NanoVerif.Props.C16
 import NanoVerif.Props.C15
 import NanoVerif.Props.C01
 import NanoVerif.Props.C05
+import NanoVerif.Props.C06
